@@ -54,6 +54,9 @@ func runExCase(c *exCase, st *stats, ci int) {
 	if why := configMismatch(idx, &hc); why != "" {
 		st.ImplFailures = append(st.ImplFailures, implFailure{Case: ci, What: why, Key: "config-not-as-requested", Input: c.Cfg})
 	}
+	if why := metricMismatch(&hc); why != "" {
+		st.ImplFailures = append(st.ImplFailures, implFailure{Case: ci, What: why, Key: "space-computes-another-metric", Input: c.Cfg})
+	}
 	sp := mkSpace(c.Cfg.Space)
 	for pos, i := range c.Order {
 		idx.Insert(mustUUID(smallId(i)), f32bitsVec(c.Vecs[i]), nil, c.Levels[pos])
